@@ -13,6 +13,7 @@ import (
 	"github.com/MichaelMure/git-bug/entities/identity"
 	"github.com/MichaelMure/git-bug/entity"
 	"github.com/MichaelMure/git-bug/repository"
+	"github.com/MichaelMure/git-bug/util/lamport"
 
 	"verif/harness/hx"
 )
@@ -418,6 +419,14 @@ func fieldOne(v FieldVec, variant int) string {
 			return "specification: invalid; NewIdentityFull+Commit accepted it"
 		}
 	}
+	// (1b) the chain classes through the editing API: the identity is created on a replica whose clocks show the first version's
+	// times, travels to a replica whose clocks show the second version's (lower, fewer, others: that replica has seen less), and is
+	// changed and committed there: accepted iff the chain is valid, and a refused commit stores nothing
+	if v.Clocks != "none" && variant == 0 {
+		if why := commitOnReplicaBehind(v); why != "" {
+			return why
+		}
+	}
 	// (2) served by a remote: merged iff valid
 	var blobs [][]byte
 	switch v.Clocks {
@@ -486,6 +495,61 @@ func fieldOne(v FieldVec, variant int) string {
 	}
 	if !v.Valid && (status != entity.MergeStatusInvalid || now != localHead) {
 		return fmt.Sprintf("specification: an invalid update of a known identity must be refused; merge reported status %d (local ref untouched: %v)", status, now == localHead)
+	}
+	return ""
+}
+
+func commitOnReplicaBehind(v FieldVec) string {
+	first := map[string]int{"bugs-edit": 3}
+	var second map[string]int
+	switch v.Clocks {
+	case "grow":
+		second = map[string]int{"bugs-edit": 4, "bugs-create": 1}
+	case "same":
+		second = map[string]int{"bugs-edit": 3}
+	case "shrink":
+		second = map[string]int{"bugs-edit": 2}
+	case "dropped":
+		first, second = map[string]int{"bugs-edit": 3, "bugs-create": 2}, map[string]int{"bugs-edit": 4}
+	case "dropped_all", "dropped_null":
+		first, second = map[string]int{"bugs-edit": 3, "bugs-create": 2}, map[string]int{}
+	case "replaced":
+		second = map[string]int{"other-clock": 9}
+	default:
+		return ""
+	}
+	dir := hx.Scratch("identclk")
+	defer os.RemoveAll(dir)
+	_ = hx.InitBare(filepath.Join(dir, "hub")).Close()
+	a, b := hx.InitRepo(filepath.Join(dir, "A")), hx.InitRepo(filepath.Join(dir, "B"))
+	defer a.Close()
+	defer b.Close()
+	hx.Must(a.AddRemote("origin", filepath.Join(dir, "hub")))
+	hx.Must(b.AddRemote("origin", filepath.Join(dir, "hub")))
+	for n, t := range first {
+		hx.Must(a.Witness(n, lamport.Time(t)))
+	}
+	for n, t := range second {
+		hx.Must(b.Witness(n, lamport.Time(t)))
+	}
+	i, err := identity.NewIdentity(a, "traveller", "t@example.org")
+	hx.Must(err)
+	hx.Must(i.Commit(a))
+	_, err = identity.Push(a, "origin")
+	hx.Must(err)
+	hx.Must(identity.Pull(b, "origin"))
+	ib, err := identity.ReadLocal(b, i.Id())
+	hx.Must(err)
+	before, err := b.ResolveRef("refs/identities/" + i.Id().String())
+	hx.Must(err)
+	hx.Must(ib.Mutate(b, func(m *identity.Mutator) { m.Name = "traveller, renamed" }))
+	cerr := ib.Commit(b)
+	after, _ := b.ResolveRef("refs/identities/" + i.Id().String())
+	if v.Valid && (cerr != nil || after == before) {
+		return fmt.Sprintf("specification: a valid next version (clocks %v after %v); Mutate+Commit on the second replica: %v (ref moved: %v)", second, first, cerr, after != before)
+	}
+	if !v.Valid && (cerr == nil || after != before) {
+		return fmt.Sprintf("specification: clocks %v after %v must be refused; Mutate+Commit on the second replica: %v (ref moved: %v)", second, first, cerr, after != before)
 	}
 	return ""
 }
